@@ -218,6 +218,44 @@ fn small_scope(id: &str, max_n: usize) -> Vec<HCase> {
     out
 }
 
+/// The window rule with heavy versions: chains of 5..=7 versions whose history segments weigh
+/// megabytes (two weight profiles), every position asked for, with and without an older snapshot.
+/// The rule speaks of positions in the chain only - what the versions weigh must not matter.
+fn heavy_window(tier: Tier) -> Vec<HCase> {
+    let mut out = vec![];
+    let profiles: &[fn(usize) -> u32] = &[
+        |i| 3_600_000 + 4099 * i as u32,
+        |i| if i % 2 == 0 { 65_536 + i as u32 } else { 9_000_000 + 13 * i as u32 },
+        |i| if i % 2 == 1 { 1_100_000 + i as u32 } else { 2_200_000 + 7 * i as u32 },
+    ];
+    for backend in [Backend::Mem, Backend::Sqlite] {
+        for (pi, prof) in profiles.iter().enumerate() {
+            for n in 5..=tier.pick(7usize, 8) {
+                for snap in [SnapAt::None, SnapAt::Pos(0)] {
+                    if pi == 2 && snap != SnapAt::None {
+                        continue;
+                    }
+                    for back in 0..n {
+                        let mut ops = vec![];
+                        for i in 0..n {
+                            let parent = if i == 0 { IdRef::Nil } else { IdRef::Latest(0) };
+                            ops.push(Op::AddVersion { c: 0, parent, data: BytesSpec { len: prof(i), class: 2, seed: 40 + i as u32 } });
+                            if snap == SnapAt::Pos(i) {
+                                ops.push(Op::AddSnapshot { c: 0, version: IdRef::Latest(0), data: d(501) });
+                            }
+                        }
+                        let v = if back == 0 { IdRef::Latest(0) } else { IdRef::Ancestor(0, back as u8) };
+                        ops.push(Op::AddSnapshot { c: 0, version: v.clone(), data: d(700) });
+                        ops.push(Op::AddSnapshot { c: 0, version: v, data: BytesSpec { len: 2_500_000, class: 2, seed: 701 } });
+                        out.push(HCase { backend, via: Via::Lib, case: Case { cfg: Cfg::default(), salt: 1, nclients: 1, ops } });
+                    }
+                }
+            }
+        }
+    }
+    out
+}
+
 // ---------------------------------------------------------------------------------------------
 
 fn rule(id: &str) -> &'static str {
@@ -226,7 +264,7 @@ fn rule(id: &str) -> &'static str {
         "C02" => "every AddVersion of generated histories is compared with the compare-and-append rule, id freshness, stored parent/payload, counter +1 iff snapshot; rejections with full-state dump before/after; plus histories of 200-230 clients through one server under a soft limit on open file descriptors (what is open plus 150). Non-trivial: a real rejection (parent class not latest on a non-empty chain) or an accept on a client holding a snapshot; distinct by (state class, parent class, chain length bucket).",
         "C07" => "(a) two clients' overlapping requests under all scheduler-owned interleavings (lock probes included): each client is answered as on its own and every acknowledged version is served unaltered afterwards; (b) after every op of a generated history every acknowledged version of every client is re-read through GetChildVersion(parent). Non-trivial: a re-read after a later op; distinct by (version position, chain length bucket, class of the later op, snapshot present).",
         "C08" => "every AddVersion(p) of generated histories is preceded by GetChildVersion(p) on the same state and the pair is checked against the found / not-found<=>accept / gone<=>reject relation and the model; plus the complete small-scope table (chain 0..6, and the registered-but-empty client, x base kind x snapshot position x p class x library/HTTP x small/300 KB body). Non-trivial: probe on a non-empty chain with p not the latest; distinct by (state class, p class).",
-        "C10" => "complete small-scope enumeration (chain 0..9 x nil/non-nil base x every reachable snapshot position incl. base corner x every v class incl. each position, nil, base, fresh, foreign; both backends) plus AddSnapshot ops in long random histories; after each AddSnapshot storage must show a clean replacement exactly when the window rule holds, else be untouched (full dump). Non-trivial: v is 5th/6th most recent, or a snapshot exists and v differs from it, or v is foreign/base; distinct by (n, base kind, snapshot position, v class, v position).",
+        "C10" => "complete small-scope enumeration (chain 0..9 x nil/non-nil base x every reachable snapshot position incl. base corner x every v class incl. each position, nil, base, fresh, foreign; both backends), the window positions again on chains of 5..8 versions weighing 64 KiB..9 MB each (three weight profiles), plus AddSnapshot ops in long random histories; after each AddSnapshot storage must show a clean replacement exactly when the window rule holds, else be untouched (full dump). Non-trivial: v is 5th/6th most recent, or a snapshot exists and v differs from it, or v is foreign/base; distinct by (n, base kind, snapshot position, v class, v position).",
         "C11" => "(a) all scheduler-owned interleavings (gate before every storage call) of AddSnapshot overlapping GetSnapshot and AddVersion on memory / one SQLite object / one SQLite object per request, via HTTP handlers and library: every GetSnapshot answer is the id and bytes of one upload, never an error, and the snapshot left behind is a usable base; (b) histories dense in AddVersion/AddSnapshot; GetSnapshot after every op must equal the most recently accepted upload (id and bytes from the same upload); after accepted snapshots and at the end the chain is walked from the snapshot version to the latest. Non-trivial: a walk of >=1 step after >=2 accepted snapshots or after a declined AddSnapshot; distinct by (chain length, walk length, accepted count, base kind).",
         "C18" => "(a) the request grammar of C15 (malformed ids, media types, bodies, broken transfers, unknown routes and methods, conflicts, reads) against servers holding state: whatever is not answered with a success, and every read, must leave the full dump unchanged; (b) full state dump (raw SQL for SQLite, storage API over all known ids for memory) before and after every GetChildVersion, GetSnapshot, conflicting AddVersion and declined AddSnapshot of generated histories. Non-trivial: the op's client holds a snapshot or >=2 clients hold data; distinct by (op/outcome, state class, holders, chain length bucket).",
         _ => "",
@@ -263,6 +301,15 @@ pub fn run(id: &str, tier: Tier, seed: u64) -> Report {
         let cases = small_scope(id, max_n);
         let r = engine::enumerate(id, "history", cases, |hc, st| check(id, hc, st));
         rep.absorb("small-scope-exhaustive", r);
+        if rep.failed() {
+            return rep;
+        }
+    }
+
+    if id == "C10" || id == "C11" {
+        // the same rule on chains whose versions weigh megabytes
+        let r = engine::enumerate(id, "history", heavy_window(tier), |hc, st| check(id, hc, st));
+        rep.absorb("heavy-window", r);
         if rep.failed() {
             return rep;
         }
